@@ -118,7 +118,7 @@ func Harness_C07_postPool() {
 	c07Post(body.text, "one", ex)
 	got := pool.Get().(*graphql.RawParams)
 	if !zzsym.Symbolic() && got != pooled {
-		return // the real sync.Pool may hand out a fresh object (goroutine moved between Ps): nothing to observe
+		zzsym.Assume(false) // the real sync.Pool may hand out a fresh object (goroutine moved between Ps): nothing to observe
 	}
 	zzsym.Assert(got == pooled, "the request used the pooled object and returned it")
 	zzsym.Assert(c07Zero(got), "the object returned to the pool is all-zero on every exit")
